@@ -9,7 +9,7 @@ import (
 
 func init() {
 	register(&propDef{
-		ID: "C17", Level: "other", Run: runC17,
+		ID: "C17", Level: "other", Run: withShared(runC17, share{"C08", runC08, roleConstruct("positions-from-search", "ring builder")}),
 		Explanation: "In the regular branch of the dealer move the seats searched are the clockwise ring starting at the current dealer with the dealer itself dropped (the button never stays put while somebody else can play), or the full ring from seat 0 when there is no dealer yet; the new dealer is the search's result; the playable search returns the first accepted element of its argument in order together with its index (it never skips a playable seat) and (nil, -1) only after a full pass; the seats passed by the button are re-activated up to, not including, the new dealer; Next returns the insufficient-players error when no dealer is found, and the blind assignment that follows is only reached with at least two playable seats or checked search results (the sentinel rule shared with C18). Does NOT decide never-backwards, or that waiting players are let in first, over histories.",
 		Trusted:     commonTrusted,
 		Assumptions: []string{"the ring builder returns the clockwise order from its start id (checked under C08)", "the playable predicate is occupied AND active AND not reserved (checked under C08)"},
@@ -26,12 +26,23 @@ func runC17(c *Ctx) {
 		return
 	}
 	// the dealer mover: the function in Next's call tree that stores sm.dealer
+	// (the one Next calls directly; helpers it delegates to are analysed as part of it)
 	var mover *ssa.Function
-	for fn := range ix.Reachable(next) {
-		for _, w := range ix.Info[fn].Writes {
+	writesDealer := func(fn *ssa.Function) bool {
+		fi := ix.Info[fn]
+		if fi == nil {
+			return false
+		}
+		for _, w := range fi.Writes {
 			if w.Key == "seat_manager.SeatManager.dealer" {
-				mover = fn
+				return true
 			}
+		}
+		return false
+	}
+	for _, cc := range ix.Info[next].Calls {
+		if f := cc.StaticCallee(); f != nil && mover == nil && ix.Info[f] != nil && (writesDealer(f) || ix.Info[f].TWrites["seat_manager.SeatManager.dealer"]) {
+			mover = f
 		}
 	}
 	if mover == nil {
@@ -42,6 +53,14 @@ func runC17(c *Ctx) {
 	c.touch(fnKey(mover), fnKey(next))
 	s := newSumm(p, 0)
 	s.EngineAliases = false
+	// helpers the mover delegates to (a fallback branch, the choice of the candidate list) are
+	// analysed in place; the searches, the ring builder and the counters stay visible as calls
+	{
+		base := smHelperFilter(p, mover)
+		s.HelperInline = func(f *ssa.Function) bool {
+			return base(f) || (privateHelper(mover, f) && writesDealer(f) && len(findSentinelsOf(p, f)) == 0)
+		}
+	}
 	paths, cut := s.Function(mover)
 	if cut != "" {
 		c.undecided("search-starts-after-dealer", fnKey(mover), p.FnPos(mover), "summary cut: "+cut)
@@ -116,8 +135,19 @@ func runC17(c *Ctx) {
 	{
 		var bad2 []string
 		okFound := false
-		for _, l := range s.loops(mover) {
-			body, _ := s.LoopBody(mover, l)
+		var lps []lp
+		seenL := map[*Loop]bool{}
+		for _, ps := range paths {
+			for _, e := range ps.Events {
+				if e.Kind == "loop" && !seenL[e.Loop] {
+					seenL[e.Loop] = true
+					lps = append(lps, lp{e.InFn, e.Loop})
+				}
+			}
+		}
+		for _, x := range lps {
+			l := x.l
+			body, _ := s.LoopBody(x.fn, l)
 			// the loop with an exit on "element == found dealer"
 			hasStop := false
 			for _, ps := range body {
@@ -127,6 +157,36 @@ func runC17(c *Ctx) {
 						bad2 = append(bad2, "the new dealer's own seat is modified while passing")
 					}
 				}
+			}
+			if !hasStop {
+				// the stop may also be the loop's own condition: "for i := 0; seats[i] != found; i++":
+				// then every iteration carries the negated comparison of the element with the search result
+				all, n := true, 0
+				for _, ps := range body {
+					if ps.End != "continue" {
+						continue
+					}
+					n++
+					if !hasCond(ps, func(x *Val) bool {
+						if !(x.K == KAtom && x.At.Op == "is" && x.Neg && strings.Contains(x.At.String(), "[iter:") && search != nil) {
+							return false
+						}
+						if strings.Contains(x.At.String(), fnKey(search)+"(") {
+							return true
+						}
+						// a value defined before the loop on several paths is opaque in the body
+						// summary: resolve it in the SSA form
+						for _, side := range []string{x.At.L, x.At.R} {
+							if strings.HasPrefix(side, "loopval:") && isSearchHit(x0fn(lps, l), strings.TrimPrefix(side, "loopval:"), search) {
+								return true
+							}
+						}
+						return false
+					}) {
+						all = false
+					}
+				}
+				hasStop = all && n > 0
 			}
 			if !hasStop {
 				continue
@@ -152,6 +212,7 @@ func runC17(c *Ctx) {
 		c.touch(fnKey(search))
 		s2 := newSumm(p, 0)
 		s2.EngineAliases = false
+		s2.HelperInline = purePredicate(p, search)
 		fpaths, _ := s2.Function(search)
 		var bad3 []string
 		loops := s2.loops(search)
@@ -165,7 +226,27 @@ func runC17(c *Ctx) {
 			}
 			body, _ := s2.LoopBody(search, l)
 			nHit := 0
+			hits := hitExits(p, search)
 			for _, ps := range body {
+				if strings.HasPrefix(ps.End, "exit:") && hits[strings.TrimPrefix(ps.End, "exit:")] {
+					// the hit is returned right after the loop: (element at the loop index, the loop index)
+					nHit++
+					okRet := false
+					for _, fp := range fpaths {
+						if len(fp.Ret) == 2 && hasCond(fp, func(x *Val) bool { return x.K == KAtom && x.At.Op == "b" && strings.HasSuffix(x.At.L, "exit→"+strings.TrimPrefix(ps.End, "exit:")) }) {
+							idx := fp.Ret[1].String()
+							if strings.HasPrefix(idx, "loopval:") && fp.Ret[0].String() == "param:"+search.Params[1].Name()+"["+idx+"]" {
+								if ci := analyseCounting(l); ci.OK && idx == "loopval:"+search.Name()+"."+ci.Phi.Name() {
+									okRet = true
+								}
+							}
+						}
+					}
+					if !okRet {
+						bad3 = append(bad3, "the hit returned after the loop is not the current element with its index")
+					}
+					continue
+				}
 				if strings.HasPrefix(ps.End, "exit-return") {
 					nHit++
 					// returns (element, its index)
@@ -185,7 +266,7 @@ func runC17(c *Ctx) {
 				bad3 = append(bad3, "the search never returns from inside the loop: it cannot return the first hit")
 			}
 			// every playable element stops the search (never skipped), whatever its index
-			if ok, why := checkPlayableTable(body, acceptExitReturn); !ok {
+			if ok, why := checkPlayableTable(body, acceptHit(p, search)); !ok {
 				bad3 = append(bad3, why...)
 			}
 			// after a full pass: (nil, -1)
@@ -247,4 +328,40 @@ func runC17(c *Ctx) {
 	}
 	// shared sentinel rule (C18/sentinels): blind assignment only with checked / count-guarded searches
 	runSentinels(c, "refusal")
+}
+
+type lp struct {
+	fn *ssa.Function
+	l  *Loop
+}
+
+func x0fn(lps []lp, l *Loop) *ssa.Function {
+	for _, x := range lps {
+		if x.l == l {
+			return x.fn
+		}
+	}
+	return nil
+}
+
+// isSearchHit: the SSA value "<fn>.<name>" is the first result of a call to the search.
+func isSearchHit(fn *ssa.Function, qualified string, search *ssa.Function) bool {
+	if fn == nil {
+		return false
+	}
+	name := qualified[strings.LastIndex(qualified, ".")+1:]
+	for _, b := range fn.Blocks {
+		for _, in := range b.Instrs {
+			v, ok := in.(ssa.Value)
+			if !ok || v.Name() != name {
+				continue
+			}
+			if ex, ok := v.(*ssa.Extract); ok && ex.Index == 0 {
+				if call, ok := ex.Tuple.(*ssa.Call); ok && call.Common().StaticCallee() == search {
+					return true
+				}
+			}
+		}
+	}
+	return false
 }
